@@ -274,4 +274,23 @@ example : selectorAppend [[[.compound [.type ['a']]], [.compound [.cls ['y']]]],
     = .ok [[.compound [.type ['a', '-', 's']]], [.compound [.cls ['y', '-', 's']]]] := by decide +kernel
 
 
+
+/-! ### parser / printer of the driver's selector syntax -/
+
+/-- Round trip of the model's printer and parser — the exact statement, NOT proved in this cut
+    (a character-level proof over the fuelled recursive-descent parser is growth work).  `wfNames`
+    would restrict names to identifiers.  The check evaluates this equation on every selector it
+    generates (`sel parse` followed by `sel eqast`), and the examples below are kernel-checked. -/
+def C11_parse_print_roundtrip_statement (wfNames : SelList → Prop) : Prop :=
+  ∀ (l : SelList), wfNames l → (∀ x ∈ l, (fwd x).isSome = true) → parseSelList (renderList l) = some l
+
+private def rtSample : SelList :=
+  [[.compound [.type ['a'], .cls ['x']], .comb .child,
+    .compound [.id ['i'], .attr ['t'] (some ['v']), .sel .not [([.cls ['y']], []), ([.type ['c']], [(.desc, [.type ['b'], .pclass ['h']])])]],
+    .compound [.placeholder ['p'], .pelem ['b', 'e']]],
+   [.compound [.univ], .comb .later, .compound [.attr ['t'] none], .comb .next, .compound [.parent (some ['-', 's'])]]]
+
+example : parseSelList (renderList rtSample) = some rtSample := by decide +kernel
+example : renderList rtSample = "a.x > #i[t=v]:not(.y, b:h c) %p::be, * ~ [t] + &-s".toList := by decide +kernel
+
 end Grass.Selector
